@@ -10,7 +10,7 @@ import math
 import numpy as np
 
 from gnpy.core.elements import Fiber
-from gnpy.core.science_utils import NliSolver
+from gnpy.core.science_utils import NliSolver, RamanSolver
 from gnpy.core.parameters import SimParams
 from gnpy.core.info import create_arbitrary_spectral_information
 from gnpy.core.utils import dbm2watt
@@ -242,6 +242,30 @@ def run_case(case, ctx):
             if np.any(full < nli_r * (1 - 1e-12)):
                 ctx.violation('not-monotonic-in-channels', f'adding channel {j} lowered some NLI',
                               {'fibre': fparams, 'without': nli_r[:8], 'with': full[:8]})
+        # (3) the same laws for the generalised GN methods on small combs (no closed form is claimed for them)
+        if 3 <= n <= 6 and fparams['length'] > 1 and rng.random() < 0.5:
+            method = G.pick(rng, ['ggn_spectrally_separated', 'ggn_approx'])
+            SimParams.set_params({'nli_params': {'method': method, 'dispersion_tolerance': 4,
+                                                 'phase_shift_tolerance': 0.5}})
+            try:
+                def ggn(si_):
+                    srs_ = RamanSolver.calculate_stimulated_raman_scattering(si_, fiber)
+                    return np.asarray(NliSolver.compute_nli(si_, srs_, fiber), dtype=float)
+                g0 = ggn(make_si(carriers))
+                ctx.count('ggn_law_checks')
+                if np.any(g0 < 0) or not np.all(np.isfinite(g0)):
+                    ctx.violation('nli-negative', f'{method}: negative or non-finite NLI', {'nli': g0, 'fibre': fparams})
+                gk = ggn(make_si(carriers, scale=k))
+                if rel_dev(gk, g0 * k ** 3) > 1e-10:
+                    ctx.violation('cube-law', f'{method}: common power factor {k}: NLI did not scale with k^3 '
+                                  f'(rel dev {rel_dev(gk, g0 * k ** 3):.2e})', {'fibre': fparams, 'n': n})
+                go = ggn(make_si(carriers, order=order))
+                if rel_dev(go, g0) > 1e-9:
+                    ctx.violation('order-dependence', f'{method}: NLI depends on the supply order '
+                                  f'(rel dev {rel_dev(go, g0):.2e})', {'fibre': fparams})
+                ctx.cls(f'ggn:{method}')
+            finally:
+                SimParams.set_params({})
         ctx.cls(f'disp:{fdesc["disp"]}', f'gamma:{fdesc["gamma"]}', f'loss:{fdesc["loss"]}', f'ref:{fdesc["ref"]}',
                 'comb:uniform' if uniform else 'comb:mixed', f'n:{min(n, 100) // 20 * 20}+')
         if n >= 2 and fparams['length'] > 1:
